@@ -59,6 +59,8 @@ theorem drainLoop_calm (w : Nat) (q : List Entry) : ∀ c : Core, Calm c → (dr
     intro c hc
     simp only [drainLoop]
     split
+    · rfl
+    split
     · exact ih _ (hc.same rfl)
     · split
       · exact ih _ (hc.same rfl)
@@ -109,6 +111,8 @@ theorem drainLoop_live (w : Nat) (q : List Entry) : ∀ c : Core, c.conns[w]? = 
   | cons e rest ih =>
     intro c hc
     simp only [drainLoop]
+    split
+    · rename_i hnl; simp [hc, ConnSt.isLive] at hnl
     split
     · exact ih _ hc
     · split
@@ -893,7 +897,7 @@ theorem healed_of_done {s : Sys} (h : PC s) (hd : ∀ k ∈ s.tasks, doneC k.pc 
   · cases hq : s.core.queue with
     | nil => rfl
     | cons e q =>
-      obtain ⟨k, hk, hp⟩ := hG.iinv.busy hcon (by rw [hq]; simp)
+      obtain ⟨k, hk, hp⟩ := hG.iinv.busy hcon (by rw [hq]; simp) (by simp [SockIdle.curLive, hrw, hl, ConnSt.isLive])
       have := hd k hk
       revert hp this; cases k.pc <;> simp [SockIdle.promising, doneC]
   · rcases hG.h2.watch hG.isOpen w hrw with ⟨k, hk, r, hr⟩ | ⟨_, k, hk, hch⟩
